@@ -294,14 +294,8 @@ def monitor_p(line):
                 want.append(tag + img(tbl[int(n)]))
     if want != lst(d["R"], ","):
         return "resolve: deref of the section reference lists"
-    # ---- metadata (string keys with string values, later wins)
-    m = {}
-    for e in lst(d["KM"], ","):
-        k, v = e.split("=")
-        if k != "-" and v != "-":
-            m[k] = v
-    if sorted("%s=%s" % kv for kv in m.items()) != lst(d["BM"], ","):
-        return "mirror: metadata"
+    # metadata is NOT judged: the statement speaks of sections, blocks, step items and components; what the view
+    # keeps of the metadata (string values only, today) is compared between model and implementation only
     return None
 
 
